@@ -52,3 +52,13 @@ Example C02_multi_assign_nonvacuous :
   multi_assign ex_body = ex_out /\ ma_gen ex_body = ["_x1"; "_x2"]
   /\ wf_ma_prog {| fp_init := []; fp_body := ex_body |} = true.
 Proof. vm_compute. repeat split; reflexivity. Qed.
+
+(* The hypothesis wf_ma cannot be dropped: a body that uses a variable named `_x1` (accepted
+   by Polar's grammar) is transformed into one with a different law of x, from the same
+   state.  The correspondence module replays this input on the real pass (capture probe). *)
+Theorem C02_multi_assign_needs_wf :
+  wf_ma ma_capture_body = false /\
+  E (exec_gas no_law (multi_assign ma_capture_body) ma_capture_state) (fun s => s "x")
+  <> E (exec_gas no_law ma_capture_body ma_capture_state) (fun s => s "x").
+Proof. exact multi_assign_needs_wf. Qed.
+Print Assumptions C02_multi_assign_needs_wf.
